@@ -61,9 +61,11 @@ def tree_is_empty(t):
 def keyhash(key):
     if key is None:
         return 3
+    h = 5
     if isinstance(key, str):
         key = (key,)
-    h = 5
+    elif len(key) == 1:
+        h = 11            # a one-element tuple is not the string (the first level is documented to receive the string)
     for part in key:
         for ch in part:
             h = (h * 131 + ord(ch)) % P
@@ -88,8 +90,10 @@ def abs_code(t):
 
 def real_code(x):
     """the code of a real argument of fn: an int64 tensor for tensors, a python int otherwise"""
-    if x is None or (isinstance(x, str) and x == DFLT):
+    if isinstance(x, str) and x == DFLT:
         return 7
+    if x is None:
+        return 9          # never a legitimate argument: the default object of the harness is DFLT
     if isinstance(x, torch.Tensor):
         return x.detach().to(torch.int64)
     if is_non_tensor(x):
